@@ -28,7 +28,7 @@ import common
 sys.path.insert(0, os.path.join(common.VERIF, "oracle"))
 import checkfile  # noqa: E402
 
-BUILD_TIMEOUT_S = 160
+BUILD_TIMEOUT_S = 900      # generous: a loaded machine must not turn a slow build into "nothing found"
 ENV_VAR = "VF_REPLAY_DRIVER"
 
 DRIVER_RS = r'''
@@ -478,10 +478,13 @@ def find(prop, fo, seed, deadline=None):
     root = common.scratch_dir("replay_b3sum")
     found = None
     try:
+        tb = time.time()
         binp, blog = build(root)
         log["builds"].append(blog)
         if not binp:
             return {"found": None, "log": log}
+        if deadline:
+            deadline += time.time() - tb      # the build does not count against the search budget
         for half in _order(function):
             if deadline and time.time() > deadline - 5:
                 log["note"] = "time budget exhausted before " + half
